@@ -585,6 +585,11 @@ func c14Run(c *vk.Ctx) {
 			return
 		}
 	}
+	if c.Batch%2 == 0 {
+		if !c14Process(c, r) {
+			return
+		}
+	}
 	// idle clients never accumulate sockets or goroutines
 	if left := lab.WaitNoGoroutines(udpB, []string{"outline-ss-server/service."}, nil); len(left) > 0 {
 		c.Violation("C14/goroutine-left-after-all-associations-ended", map[string]any{"count": len(left), "stack": left[0]})
@@ -605,13 +610,13 @@ func init() {
 	vk.Register(&vk.Spec{
 		ID:          "C14",
 		Level:       "exploration",
-		Rule:        "expiry phases (timeout 0.4..1.2 s, 6..14 concurrent clients, scenarios: non-DNS burst then idle, single datagram, DNS then non-DNS, fast close, three no-fast-close variants) judged on the H2 event log of the real outbound socket + client send stamps + metrics recorder, ending with a listener shutdown over live associations; long-timeout phase (30 s > 17 s) with random DNS/non-DNS sequences for deadline monotonicity; thorough adds a real 17 s DNS case; final goroutine/fd audit; class = (phase, scenario or sequence shape)",
+		Rule:        "expiry phases (timeout 0.4..1.2 s, 6..14 concurrent clients, scenarios: non-DNS burst then idle, single datagram, DNS then non-DNS, fast close, three no-fast-close variants) judged on the H2 event log of the real outbound socket + client send stamps + metrics recorder, ending with a listener shutdown over live associations; long-timeout phase (30 s > 17 s) with random DNS/non-DNS sequences for deadline monotonicity; thorough adds a real 17 s DNS case; process phase: the real binary with -udptimeout 1.2/2.5 s under both configuration formats, outbound socket watched in /proc; final goroutine/fd audit; class = (phase, scenario or sequence shape)",
 		Assumptions: []string{"'immediate' deadline = not later than 2 ms after the call", "B = 10 s bounded-progress restatement of 'torn down within bounded time'", "client datagrams racing the fast close are scripted not to occur"},
 		Batches:     func(t string) int { return map[string]int{"quick": 4, "thorough": 16}[t] },
 		Parallel:    func(t string) int { return 4 },
 		Timeout:     func(t string) time.Duration { return 25 * time.Minute },
 		Run: func(c *vk.Ctx) {
-			for _, s := range []string{"deadlines_checked", "expired_reclaimed_exactly_once", "fast_close_reclaimed", "dns_associations_kept", "shutdown_with_live_associations", "long_timeout_sequences", "leak_audits_passed"} {
+			for _, s := range []string{"deadlines_checked", "expired_reclaimed_exactly_once", "fast_close_reclaimed", "dns_associations_kept", "shutdown_with_live_associations", "long_timeout_sequences", "leak_audits_passed", "process_configured_timeout_honoured_services", "process_configured_timeout_honoured_legacy-keys"} {
 				c.Require(s)
 			}
 			c14Run(c)
